@@ -19,7 +19,10 @@ oracle       : on every well-framed request the real server must write a stream 
 
 Readings adopted (the statement leaves room):
  * "well-framed request stream" = pyarrow opens the stream, reads a first batch that passes the server's IPC
-   validation, and drains to EOS without error.  A schema-only stream (zero batches), batches failing full validation
+   validation, and drains to EOS without error, AND the reader stops exactly at the end of the bytes the sender
+   delimited as this request (a corrupted message-length field that pyarrow happens to tolerate makes the reader run
+   into the next request: such a byte string is not a valid IPC stream of its own and desynchronises the connection;
+   it is judged by the second sentence of the statement and is not compared with the one-request model).  A schema-only stream (zero batches), batches failing full validation
    and everything pyarrow rejects are "not a valid Arrow IPC stream".
  * "without leaving the peer waiting for a reply": after such bytes the serve loop has ended (serve returned or
    raised -- every production caller of serve() then closes the transport or the process exits, so the peer reads
@@ -365,7 +368,8 @@ def run(ctx: Any) -> None:  # noqa: C901, PLR0912, PLR0915 - one long driver, ke
         """All fields of M_ReadReq.req for the request bytes (None if a field cannot be expressed)."""
         d: dict[str, Any] = {"pre": (0, 0, 0), "md": [], "cols": [], "rows": 0, "ext": (0, ([], 0)), "shm_meta_ok": True, "attach": 0,
                              "shmres": (0, ([], 0)), "release": 0, "ver": 0, "val": 0}
-        c, rdr = try_code(lambda: ValidatedReader(ipc.open_stream(io.BytesIO(data)), srv._ipc_validation))
+        src = io.BytesIO(data)
+        c, rdr = try_code(lambda: ValidatedReader(ipc.open_stream(src), srv._ipc_validation))
         if c:
             d["pre"] = (c, 0, 0)
             return d
@@ -386,6 +390,7 @@ def run(ctx: Any) -> None:  # noqa: C901, PLR0912, PLR0915 - one long driver, ke
         if c:
             d["pre"] = (0, 0, c)
             return d
+        d["end"] = src.tell()  # where the reader stopped: the request's end iff the message length fields are intact
         md = dict(cm.items()) if cm is not None else {}
         d["md"] = list(cm.items()) if cm is not None else []
         if len(d["md"]) != len(md):
@@ -763,6 +768,17 @@ def run(ctx: Any) -> None:  # noqa: C901, PLR0912, PLR0915 - one long driver, ke
             replay = {"label": cs["label"], "request_hex": cs["data"].hex(), "followed_by_probe_call": cs["with_probe"], "server": cs["srv"], "mode": {"loop": cs["loop"], "static_shm": cs["static"], "cached_segment": cs["cached"]}, "earlier_on_this_connection": [{"kind": k, "request_hex": PRIME[k].hex()} for k in cs["primed"]],
                       "observed": {"kind": obs[0], "written": ALL_EXC[obs[1] - 1] if 0 < obs[1] <= len(ALL_EXC) else obs[1], "escaped": ALL_EXC[obs[2] - 1] if obs[2] else None, "note": obs[3]}}
             if d is None:
+                continue
+            if d["pre"] == (0, 0, 0) and d["end"] != len(cs["data"]):
+                # pyarrow accepted the stream but did not stop at the end of the sender's request: a message LENGTH
+                # field was corrupted, the reader ran into (or stopped short of) the next request.  The bytes the sender
+                # delimited are not a valid Arrow IPC stream and the connection is desynchronised from here on, so this is
+                # the statement's second sentence (the connection may end, the peer must not be left waiting), and the
+                # one-request model, which places the next request at the sender's boundary, does not apply.
+                ctx.count("framing_shifted_by_corruption")
+                ctx.tally("framing", "length field corrupted: reader stopped at %+d" % (d["end"] - len(cs["data"])))
+                if obs[0] in (2, 8):
+                    ctx.violation("invalid-ipc-left-unanswered-loop-running", "a stream with a corrupted message length: serve_one returned without a reply / hung", replay)
                 continue
             well_framed = d["pre"] == (0, 0, 0)
             # ---- the property's own predicate on what the real server did (independent of the model) ----
